@@ -159,6 +159,8 @@ def ref_float(s):
             return "U", "bare_point"  # .5  5.  -.5
         if len(ip) > 1 and ip[0] == "0":
             return "U", "leading_zero"
+        if len(ip) >= 309:
+            return "U", "beyond_double_range"  # lexically fine, but the tests pin "not isfinite" rejections
         if neg and _ival(ip + fp) == 0:
             return "U", "minus_zero"
         if dot:
@@ -494,6 +496,17 @@ def number_variants(quick):
             yield "0x" + str(v)
             yield "--" + str(v)
             yield str(v) + "-"
+    # very long literals: the lexical space states no length limit (kept below Python's 4300-digit int limit)
+    for n in (40, 308, 309, 310, 400, 3999):
+        for body in ("1" * n, "9" * n, "1" + "0" * (n - 1)):
+            for sg in ("", "-"):
+                yield sg + body
+                yield sg + body + ".5"
+                yield sg + body + ".0"
+        for sg in ("", "-"):
+            yield sg + "0." + "1" * n
+            yield sg + "1." + "0" * n
+            yield sg + "1" * n + "." + "9" * n
     for b in ("0.0", "1.5", "10.25", "1.1231", "1.12310923810281", "123456789.123456789", "0.000001",
               "1.10", "00.5", "0.50", "000", "0.0.0", "1..5", "1.5.", ".5.", "1,5", "1 000", "1__0"):
         for sg in ("", "-", "+"):
